@@ -263,8 +263,9 @@ uninterp spec fn removed_spec(ub: &UnstableBlocks, h: BlockHash, a: Address) -> 
 uninterp spec fn value_spec(ub: &UnstableBlocks, o: OutPoint) -> u64;
 uninterp spec fn height_spec(ub: &UnstableBlocks, o: OutPoint) -> Height;
 impl UnstableBlocks {
-    // [trusted:assumed-contract] get_added_outpoints / get_removed_outpoints / get_tx_out (unstable_blocks.rs:139-153): the cache
-    // returns the block's outpoints for the address, and every such outpoint has a cached tx out (C20 territory, not verified)
+    // [trusted:assumed-contract] get_added_outpoints / get_removed_outpoints / get_tx_out (unstable_blocks.rs:139-153): lookups in
+    // the OutPointsCache (entry-API maps): functions of the cache. That every LISTED outpoint has a cached tx out is the cache's
+    // representation invariant `cache_lists_have_tx_outs` (C20 territory): a stated precondition of the walks, not a property of the lookup
     #[verifier::external_body]
     fn get_added_outpoints(&self, block_hash: &BlockHash, address: &Address) -> (r: &[OutPoint])
         ensures r@ == added_spec(self, *block_hash, *address),
@@ -275,8 +276,16 @@ impl UnstableBlocks {
     { unimplemented!() }
     #[verifier::external_body]
     fn get_tx_out(&self, outpoint: &OutPoint) -> (r: Option<(&TxOut, Height)>)
-        ensures r.is_some(), r.unwrap().0.value == value_spec(self, *outpoint), r.unwrap().1 == height_spec(self, *outpoint),
+        ensures
+            r.is_some() == has_tx_out(self, *outpoint),
+            r matches Some(p) ==> p.0.value == value_spec(self, *outpoint) && p.1 == height_spec(self, *outpoint),
     { unimplemented!() }
+}
+uninterp spec fn has_tx_out(ub: &UnstableBlocks, o: OutPoint) -> bool;
+// [assumption, stated as precondition] the outpoints the cache lists for a block and an address have their TxOut in the cache
+spec fn cache_lists_have_tx_outs(ub: &UnstableBlocks) -> bool {
+    &&& forall|h: BlockHash, a: Address, i: int| 0 <= i < added_spec(ub, h, a).len() ==> has_tx_out(ub, #[trigger] added_spec(ub, h, a)[i])
+    &&& forall|h: BlockHash, a: Address, i: int| 0 <= i < removed_spec(ub, h, a).len() ==> has_tx_out(ub, #[trigger] removed_spec(ub, h, a)[i])
 }
 spec fn sum_values(ub: &UnstableBlocks, s: Seq<OutPoint>, n: int) -> int
     decreases n,
@@ -325,6 +334,7 @@ spec fn balances_in_range(ub: &UnstableBlocks, a: Address, chain: Seq<CachedBloc
 //@|         main_chain@.len() < 0x8000_0000,
 //@|         rows_small(rows_spec(&state.unstable_blocks.tree)),
 //@|         balances_in_range(&state.unstable_blocks, address, main_chain@, balance0 as int),
+//@|         cache_lists_have_tx_outs(&state.unstable_blocks),
 //@|     ensures
 //@|         // the balance is the stable balance plus the per-block deltas of exactly the blocks get_utxos applies for the
 //@|         // same request: the first cut_len blocks of the served chain
@@ -357,6 +367,7 @@ spec fn balances_in_range(ub: &UnstableBlocks, a: Address, chain: Seq<CachedBloc
 //@|     forall|i: int| 0 <= i < blocks_with_depths_by_heights@.len() ==> row_view((#[trigger] blocks_with_depths_by_heights@[i])@) =~= vp_rows[i],
 //@|     rows_small(vp_rows),
 //@|     balances_in_range(vp_ub, address, vp_chain_view, vp_b0),
+//@|     cache_lists_have_tx_outs(vp_ub),
 //@| ensures
 //@|     balance == balance_after(vp_ub, address, vp_chain_view, vp_b0, cut_len(vp_rows, vp_chain_view, vp_c, vp_chain_view.len() as int)),
 //@ loop 2
@@ -364,6 +375,7 @@ spec fn balances_in_range(ub: &UnstableBlocks, a: Address, chain: Seq<CachedBloc
 //@|     0 <= i < vp_chain_view.len(),
 //@|     block.block_hash == vp_chain_view[i as int].block_hash,
 //@|     balances_in_range(vp_ub, address, vp_chain_view, vp_b0),
+//@|     cache_lists_have_tx_outs(vp_ub),
 //@|     vp_ub == &state.unstable_blocks,
 //@|     balance == bal_mid_add(vp_ub, address, vp_chain_view, vp_b0, i as int, ita.index@),
 //@ loop 3
@@ -371,10 +383,23 @@ spec fn balances_in_range(ub: &UnstableBlocks, a: Address, chain: Seq<CachedBloc
 //@|     0 <= i < vp_chain_view.len(),
 //@|     block.block_hash == vp_chain_view[i as int].block_hash,
 //@|     balances_in_range(vp_ub, address, vp_chain_view, vp_b0),
+//@|     cache_lists_have_tx_outs(vp_ub),
 //@|     vp_ub == &state.unstable_blocks,
 //@|     balance == bal_mid_rem(vp_ub, address, vp_chain_view, vp_b0, i as int, itr.index@),
 //@ before "break;"
 //@| proof { lemma_cut_stuck(vp_rows, vp_chain_view, vp_c, i as int, vp_chain_view.len() as int); }
+//@ before "let (txout, _) = state.unstable_blocks.get_tx_out(outpoint).unwrap();" nth=1
+//@| proof {
+//@|     let ghost sq0 = added_spec(vp_ub, vp_chain_view[i as int].block_hash, address);
+//@|     assert(*outpoint == sq0[ita.index@]);
+//@|     assert(has_tx_out(vp_ub, sq0[ita.index@]));
+//@| }
+//@ before "let (txout, _) = state.unstable_blocks.get_tx_out(outpoint).unwrap();" nth=2
+//@| proof {
+//@|     let ghost sq0 = removed_spec(vp_ub, vp_chain_view[i as int].block_hash, address);
+//@|     assert(*outpoint == sq0[itr.index@]);
+//@|     assert(has_tx_out(vp_ub, sq0[itr.index@]));
+//@| }
 //@ before "balance += txout.value;"
 //@| proof {
 //@|     let ghost sq = added_spec(vp_ub, vp_chain_view[i as int].block_hash, address);
@@ -427,6 +452,7 @@ impl<'a> AddressUtxoSet<'a> {
 //@extract file=canister/src/address_utxoset.rs in="impl<'a> AddressUtxoSet<'a>" item="fn apply_block" props=C01
 //@ rewrite R10 "\.unwrap_or_else\(\|\| \{\s*vp_trap\(\);\s*\}\)" => ".unwrap()"
 //@ spec
+//@| requires cache_lists_have_tx_outs(old(self).unstable_blocks),
 //@| ensures
 //@|     // exactly the block's removed outpoints are added to the removed set ...
 //@|     forall|o: OutPoint| final(self).removed_outpoints@.contains(o) <==>
@@ -450,6 +476,12 @@ impl<'a> AddressUtxoSet<'a> {
 //@|             if i < k { assert(0 <= i < k && sq[i] == o); }
 //@|         }
 //@|     }
+//@| }
+//@ before "let (txout, height) = self"
+//@| proof {
+//@|     let sq0 = added_spec(old(self).unstable_blocks, *block_hash, old(self).address);
+//@|     assert(*outpoint == sq0[ita.index@]);
+//@|     assert(has_tx_out(old(self).unstable_blocks, sq0[ita.index@]));
 //@| }
 //@ after "self.added_utxos.insert(Utxo {"
 //@| proof {
@@ -475,6 +507,7 @@ impl<'a> AddressUtxoSet<'a> {
 //@ loop 2 binder=ita
 //@| invariant
 //@|     self.address == old(self).address && self.unstable_blocks == old(self).unstable_blocks,
+//@|     cache_lists_have_tx_outs(old(self).unstable_blocks),
 //@|     forall|o: OutPoint| self.removed_outpoints@.contains(o) <==>
 //@|         (old(self).removed_outpoints@.contains(o) || removed_spec(old(self).unstable_blocks, *block_hash, old(self).address).contains(o)),
 //@|     forall|u: Utxo| self.added_utxos@.contains(u) <==>
